@@ -359,6 +359,10 @@ pub fn gen_project(rng: &mut Rng, cfg: &DocCfg) -> Vec<(String, Doc)> {
             fpool.customs.push(d.path.clone());
             fpool.customs.push(vec![d.path[d.path.len() - 1].clone()]);
         }
+        // fully qualified references to items of the project, whether imported or not
+        for k in &keys {
+            fpool.customs.push(split(k));
+        }
         for _ in 0..(fpool.customs.len() / 2 + 3) {
             fpool.customs.push(rng.pick(&pool.customs).clone());
         }
